@@ -20,14 +20,17 @@ HOOK_DEFINE = 'BITSERIALIZER_VERIF'
 IRFLAGS = ['-std=c++17', '-O1', '-fno-vectorize', '-fno-slp-vectorize', '-fno-unroll-loops',
            '-fno-builtin-isdigit', '-fno-builtin-isspace', '-fno-builtin-tolower', '-fno-builtin-memcmp',
            '-I' + REPO + '/include', '-I' + REPO + '/src', '-I' + VERIF + '/harness', '-S', '-emit-llvm',
-           '-D' + HOOK_DEFINE + '=1', '-DVERIF_SYMBOLIC=1']
+           '-D' + HOOK_DEFINE + '=1', '-DVERIF_SYMBOLIC=1',
+           # source-level undefined behaviour becomes an explicit llvm.ubsantrap branch in the IR (translated to a UB assertion)
+           '-fsanitize=signed-integer-overflow,shift,integer-divide-by-zero,float-cast-overflow,bounds,unreachable,return',
+           '-fsanitize-trap=all']
 NATFLAGS = ['-std=c++17', '-O1', '-g', '-I' + REPO + '/include', '-I' + REPO + '/src', '-I' + VERIF + '/harness',
             '-D' + HOOK_DEFINE + '=1']
 
 CBMC_BASE = ['--drop-unused-functions', '--no-malloc-may-fail', '--unwinding-assertions', '--div-by-zero-check',
              '--undefined-shift-check', '--stop-on-fail', '--trace', '--no-standard-checks', '--bounds-check',
              '--pointer-check', '--pointer-primitive-check', '--malloc-fail-null']
-CBMC_BASE = ['--drop-unused-functions', '--no-malloc-may-fail', '--unwinding-assertions', '--stop-on-fail', '--trace']
+CBMC_BASE = ['--drop-unused-functions', '--no-malloc-may-fail', '--unwinding-assertions', '--stop-on-fail', '--trace', '--object-bits', '12']
 
 def log(*a):
     sys.stderr.write(' '.join(str(x) for x in a) + '\n'); sys.stderr.flush()
@@ -113,9 +116,9 @@ def driver_c(o, known_classes, witness_only=False):
     n, m = o['in'], o['out']
     L = ['#include <stdint.h>', '#include <string.h>',
          'void verif_global_ctors(void);',
-         'int %s(const uint8_t *in, uint8_t *out);' % o['prop']]
-    if o.get('assume'): L.append('int %s(const uint8_t *in);' % o['assume'])
-    if o.get('known'): L.append('int %s(const uint8_t *in);' % o['known'])
+         'uint32_t %s(uint8_t *in, uint8_t *out);' % o['prop']]
+    if o.get('assume'): L.append('uint32_t %s(uint8_t *in);' % o['assume'])
+    if o.get('known'): L.append('uint32_t %s(uint8_t *in);' % o['known'])
     L += ['struct verif_inb { uint8_t b[%d]; };' % n, 'struct verif_inb nondet_verif_inb(void);',
           'struct verif_inb verif_in;', 'uint8_t verif_out[%d];' % max(m, 1),
           'void verif_driver(void) {', '  verif_global_ctors();', '  verif_in = nondet_verif_inb();']
@@ -125,7 +128,7 @@ def driver_c(o, known_classes, witness_only=False):
         L.append('  __CPROVER_assume(%s(verif_in.b) != 0);' % o['assume'])
     if o.get('known') and known_classes:
         L.append('  { int k_ = %s(verif_in.b); __CPROVER_assume(%s); }' % (o['known'], ' && '.join('k_ != %d' % c for c in known_classes)))
-    L.append('  int r_ = %s(verif_in.b, verif_out);' % o['prop'])
+    L.append('  uint32_t r_ = %s(verif_in.b, verif_out);' % o['prop'])
     L.append('#ifdef WITNESS')
     L.append('  __CPROVER_assert(0, "WITNESS: end of harness reachable");')
     L.append('#else')
@@ -325,12 +328,28 @@ def cbmc_cmd(o, d, backend, witness):
     cmd = ['cbmc', '-I', MODELS, os.path.join(d, 'gen.c'), os.path.join(d, 'drv_%s.c' % o['name']), '--function', 'verif_driver',
            '--unwind', str(o['unwind'])] + CBMC_BASE + o.get('cbmc', [])
     for us in o.get('unwindset', []): cmd += ['--unwindset', us]
+    if o.get('_unwindset'): cmd += ['--unwindset', ','.join(o['_unwindset'])]
     if witness: cmd += ['-DWITNESS']
     if backend == 'kissat': cmd += ['--external-sat-solver', 'kissat']
     elif backend == 'cadical': cmd += ['--sat-solver', 'cadical']
     elif backend == 'z3': cmd += ['--z3']
     elif backend == 'cvc5': cmd += ['--cvc5']
     return cmd
+
+def loops_of(d):
+    """loop ids of the generated module (cbmc --show-loops)"""
+    rc, out, t = sh(['cbmc', '-I', MODELS, os.path.join(d, 'gen.c'), '--show-loops'])
+    return re.findall(r'^Loop (\S+):', out, re.M)
+
+def resolve_unwind_fn(o, loops):
+    """per-function unwinding bounds: {"regex on function name": K} -> --unwindset entries (first matching regex wins)"""
+    us = []
+    for lid in loops:
+        fn = lid.rsplit('.', 1)[0]
+        for rx, k in o.get('unwind_fn', {}).items():
+            if re.search(rx, fn):
+                us.append('%s:%d' % (lid, k)); break
+    return us
 
 def parse_cbmc(out):
     r = {'verdict': None, 'failed': [], 'inputs': None, 'vars': None, 'clauses': None, 'solver_s': None}
@@ -450,7 +469,9 @@ def check(prop, tier, only=None, keep=False, seed=0):
             build_ir(h, d)
             fl = translate(h, d, obls)
             native_sources(h, d, obls)
+            loops = loops_of(d) if any(o.get('unwind_fn') for o in obls) else []
             for o in obls:
+                o['_unwindset'] = resolve_unwind_fn(o, loops)
                 kc = sorted({f['class'] for f in findings if f.get('obligation') in (o['name'], o.get('family')) and f['status'] == 'known'})
                 o['_known_classes'] = kc
                 open(os.path.join(d, 'drv_%s.c' % o['name']), 'w').write(driver_c(o, kc))
